@@ -19,6 +19,7 @@ using namespace sim;
 namespace sim {
 Plan gen_perturb_plan(uint64_t seed);                 // perturb.cpp
 Plan gen_ansic_plan(uint64_t seed);                   // perturb.cpp
+Plan gen_ansic_hist_plan(uint64_t seed);              // perturb.cpp
 int perturb_main(int argc, char **argv);              // perturb.cpp
 int oomenum_main(int argc, char **argv);              // oomenum.cpp
 }
@@ -89,6 +90,7 @@ static Plan make_plan(const std::string &mode, uint64_t seed) {
   if (mode == "oom") return gen_hist_plan(seed, true, g_focus);
   if (mode == "perturb") return gen_perturb_plan(seed);
   if (mode == "ansic") return gen_ansic_plan(seed);
+  if (mode == "ansichist") return gen_ansic_hist_plan(seed);
   return gen_hist_plan(seed, false, g_focus);
 }
 
@@ -233,7 +235,7 @@ static ClassResult classify_text(const std::string &plan_text, const std::string
   }
   // crash: classify from the sanitizer / libc text and the operation in flight
   cr.crashed = true;
-  if (plan_text.find(" probe_reuse=1") != std::string::npos || plan_text.find(" early_free=1") != std::string::npos) {
+  if (plan_text.find(" early_free=1") != std::string::npos) {
     cr.hash = "crash-in-probe-run";  // non-gating probe run (DESIGN.md §5): reported, not judged
     return cr;
   }
